@@ -390,7 +390,11 @@ pub struct SqlExpect {
     pub table: LogicalTable,
     pub layout: Layout,
     pub sql: String,
+    #[serde(default)]
     pub expect_ids: Vec<i64>,
+    /// when present, the full result is compared with these rows as a multiset (instead of `expect_ids`)
+    #[serde(default)]
+    pub expect_rows: Option<Vec<Vec<Cell>>>,
     /// set for reproducers of a known finding: the failure carries the tag `sql_expect:<id>`
     #[serde(default)]
     pub kf: Option<String>,
@@ -407,6 +411,23 @@ fn check_sql_expect_inner(c: &SqlExpect) -> Result<(), Failure> {
     let (dbh, _dir) = realise(&c.table, &c.layout, "t")?;
     let res = dbh.query(&c.sql).map_err(|f| Failure::from_fault(&f, &format!("`{}`", c.sql)))?;
     match res {
+        Ok(out) if c.expect_rows.is_some() => {
+            let mut got = out.rows_any();
+            let mut want = c.expect_rows.clone().unwrap();
+            got.sort();
+            want.sort();
+            if got != want {
+                return Err(Failure::mismatch(format!("`{}`: rows (sorted) {:?}, expected {:?}", c.sql, got, want)));
+            }
+            if out.rows.is_some() {
+                let mut cv = out.rows_from_columns();
+                cv.sort();
+                if cv != want {
+                    return Err(Failure::mismatch(format!("`{}`: column view (sorted) {:?}, expected {:?}", c.sql, cv, want)));
+                }
+            }
+            Ok(())
+        }
         Ok(out) => {
             let got: Vec<Cell> = out.rows_any().into_iter().map(|r| r.into_iter().next().unwrap_or(Cell::Null)).collect();
             let want: Vec<Cell> = c.expect_ids.iter().map(|i| Cell::Int(*i)).collect();
